@@ -1,3 +1,4 @@
+import DispTie
 from lib import TieCheck
 
 
@@ -5,13 +6,24 @@ class C08(TieCheck):
     pid = "C08"
     area = "Route"
     coq_targets = ["Corr.vo"]
-    extra_props = [("Dispatch", "Props_C08_dispatch.v"), ("Compose", "Props_Compose.v"), ("Compose", "Props_Compose2.v")]
+    extra_props = [("Dispatch", "Props_C08_dispatch.v"), ("Compose", "Props_Compose.v"), ("Compose", "Props_Compose2.v")] + DispTie.PROPS
     props = ["Props_C08.v", "Props_C08_tsr.v", "Props_C09_e2e.v"]
     gentie = "C08"
     harness = "c01"
     extra_trust = ["model M1: coq/Route/Lookup.v (tsr detection sites and propagation); specification: Spec.spec_lookup = direct(host) > tsr(host) > direct(path) > tsr(path) on the slash-toggled path",
-                   "dispatch/redirect half of C08 is checked in coq/Dispatch (see C11)"]
+                   "dispatch/redirect half of C08 is checked in coq/Dispatch (see C11)", DispTie.TRUST]
     assumptions = ["request paths without empty segments are in the specification's domain"]
+
+    def gen(self, tier):
+        """tie A for the dispatch half: Router.ServeHTTP regenerated into coq/Dispatch/GenServe.v and proved equal
+        to Dispatch.serve_http (docs/GenServe.md); a refusal or a broken bridge is a "generated-model" problem."""
+        return DispTie.tie()
+
+    def run(self, tier, seed, replay=None):
+        try:
+            return super().run(tier, seed, replay)
+        finally:
+            DispTie.restore()   # a refused / unprovable GenServe.v must not break the builds of other checks
 
     def harness_args(self, tier):
         return ["tier=" + tier, "prop=C08"]
